@@ -570,7 +570,7 @@ package wal
 //@   ensures true
 
 //@ func Open
-//@   props C03 C04 C13
+//@   props C03 C04 C11 C13
 //@   requires forall i int :: 0 <= i && i < len(opts) ==> opts[i] != nil
 //@   assigns g_open, g_commits
 //@   loop 1 invariant w != nil && w.triggerRotate != nil && !closed(w.triggerRotate) && w.closed == 0
@@ -585,6 +585,8 @@ package wal
 //@   ensures[C03.open-wf] result1 == nil ==> result0 != nil && av(result0.s) != nil && WFS(av(result0.s))
 //@   ensures[C03.open-config] result1 == nil ==> result0.codec != nil && result0.sf != nil && result0.metaDB != nil && result0.metrics != nil && result0.closed == 0
 //@   ensures[C03.appendable] result1 == nil ==> !av(result0.s).tail.sealed
+//@   ensures[C11.open-releases] result1 != nil && nevent("call:types.MetaStore.Load") >= 1 ==> nevent("call:types.MetaStore.Close") >= 1
+//@   ensures[C11.open-keeps-on-success] result1 == nil ==> nevent("call:types.MetaStore.Close") == 0
 
 // ---------------------------------------------------------------------------
 // wal.go — StoreLogs
